@@ -7,7 +7,7 @@ Directive grammar (lines starting with //@ inside a unit template):
   //@extract file=<rel> path="<seg|seg>" [kind=fn|type|header|body] [props=..] [id=..]
   //@ret <name>                               name the return value:  -> T   becomes  -> (name: T)
   //@spec                                     following lines go between signature and body
-  //@loop <n>                                 following lines go before the body of the n-th loop
+  //@loop <n> [kind=while|for|loop]           following lines go before the body of the n-th loop; a different loop form is a lost anchor
   //@proof before|after|entry|exit "<text>" [#k]     ghost lines spliced at a statement anchor
   //@rw <RULE> [count=n] [optional]  //@old ... //@new ...      declared syntactic rewrite (fail-closed; `optional`: 0 matches = text kept verbatim)
   //@hoist <fn> [<fn> ...]                    R-HOIST: the nested fn items of this function — exactly the
@@ -21,6 +21,7 @@ Clause labels: a trailing comment  //@ob C19.vm.insert.len [C01.x]  on a clause 
 import hashlib
 import os
 import re
+import sys
 import shlex
 
 from extract import Source, Undecided, blank, body_open, depth_map, match_close, strip_attrs
@@ -229,6 +230,7 @@ class Generator:
         ret = None
         spec = []
         loops = {}
+        loop_kinds = {}
         proofs = []
         rws = []
         hoist = None
@@ -243,6 +245,11 @@ class Generator:
             elif bs.startswith('//@loop'):
                 n = int(bs.split()[1])
                 cur = loops.setdefault(n, [])
+                # `kind=while|for|loop`: the loop form the invariants were written for; another form is a lost anchor
+                # (the invariants would be spliced into a loop they do not describe: undecided, never a failed proof)
+                km = re.search(r'kind=(while|for|loop)', bs)
+                if km:
+                    loop_kinds[n] = km.group(1)
             elif bs.startswith('//@proof'):
                 m = re.match(r'//@proof\s+(before|after|entry|exit|loopstart|afterloop)(?:\s+"((?:[^"\\]|\\.)*)")?(?:\s+#(\d+))?\s*$', bs)
                 if not m:
@@ -322,7 +329,7 @@ class Generator:
             bump('R-SIG')
         # loops
         if loops:
-            body = self.splice_loops(body, loops, f)
+            body = self.splice_loops(body, loops, f, loop_kinds)
             bump('R-SIG', len(loops))
         # proof splices
         for pr in proofs:
@@ -391,7 +398,7 @@ class Generator:
             body = body[:a] + body[c + 1:]
         return body, len(found)
 
-    def splice_loops(self, body, loops, f):
+    def splice_loops(self, body, loops, f, kinds=None):
         scan = blank(body)
         hits = []
         for m in LOOP_RX.finditer(scan):
@@ -402,6 +409,11 @@ class Generator:
             if n > len(hits):
                 raise Undecided(f'{f.id}: lost anchor: loop {n} (function has {len(hits)} loops)')
             m = hits[n - 1]
+            want = (kinds or {}).get(n)
+            if want and m.group(1) != want:
+                raise Undecided(f'{f.id}: lost anchor: loop {n} is a `{m.group(1)}` loop, its invariants were written for a `{want}` loop')
+            if os.environ.get('VX_LOOPKINDS'):
+                sys.stderr.write(f'LOOPKIND {f.id} {n} {m.group(1)}\n')
             k = loop_body_open(scan, m)
             if k is None:
                 raise Undecided(f'{f.id}: loop {n} has no body')
